@@ -172,6 +172,23 @@ def run_job(job):
         nref += 1
         ncached += int(cached)
         rec = recs[i]
+        if req.get("compare") is not None:
+            # a family of observed outcomes (follow-up calls of a crash-recovery sweep)
+            # against one pristine evaluation
+            for ob in req["compare"]:
+                bad = None
+                if ref["ok"] != ob["ok"] or ref.get("exc") != ob.get("exc"):
+                    bad = ("refine_outcome", f"after a crash at line event {ob['k']} of the previous call on the same "
+                                             f"object: {ob['ok']} {ob.get('exc')}; pristine world: {ref['ok']} {ref.get('exc')}")
+                elif ref["ok"] == "ret" and ref["digest"] != ob["digest"]:
+                    bad = ("refine_value", f"after a crash at line event {ob['k']} of the previous call on the same object the "
+                                           f"value differs from the pristine world: got {json.dumps(ob.get('summary'), default=str)[:250]} "
+                                           f"want {json.dumps(ref.get('summary'), default=str)[:250]}")
+                elif ref["rng_after"] != ob["rng_after"]:
+                    bad = ("refine_rng", f"after a crash at line event {ob['k']}: RNG position differs from the pristine world")
+                if bad:
+                    viol.append({"oracle": bad[0], "step": i, "detail": bad[1], "explicit": ob["explicit"]})
+            continue
         rec["ref_digest"] = ref.get("digest")
         rec["ref_ok"] = ref["ok"]
         if ref["ok"] != rec["ok"] or ref.get("exc") != rec.get("exc"):
